@@ -156,15 +156,17 @@ Theorem C01_json_nonfinite_refuted :
 Proof. exact json_nonfinite_witness. Qed.
 Print Assumptions C01_json_nonfinite_refuted.
 
-(* dump(skip_default=True) / --print_config=skip_default before the subcommand, by a parser with a REQUIRED subcommand:
-   get_defaults() has no subcommand chosen and strip_link_target_keys(defaults) raises NSKeyError — no text at all
-   (class 13); with an optional subcommand (or inside the subcommand) the same configuration is in the guard *)
-Theorem C01_skip_default_subcommand_refuted :
-  top_class id_yl true None yaml_skipdef ex_leaves = 13%N /\
-  roundtrip_top id_yl no_plain some_text some_text dumper_table loader_table true None yaml_skipdef ex_leaves = None /\
-  top_class id_yl false None yaml_skipdef ex_leaves = 0%N.
+(* REGRESSION witness (finding skip-default-subcommand-crash, repaired in /repo): on the pinned tree
+   dump(skip_default=True) / --print_config=skip_default before the subcommand, by a parser with a REQUIRED subcommand, raised
+   NSKeyError (get_defaults() chooses no subcommand and strip_link_target_keys(defaults) failed: dump_crashes_pinned); the
+   repaired dump produces a text and the same configuration is inside the guard (class 0) *)
+Theorem C01_skip_default_subcommand_regression :
+  dump_crashes_pinned true yaml_skipdef = true /\
+  dump_crashes true yaml_skipdef = false /\
+  top_class id_yl true None yaml_skipdef ex_leaves = 0%N /\
+  roundtrip_top id_yl no_plain some_text some_text dumper_table loader_table true None yaml_skipdef ex_leaves <> None.
 Proof. exact skip_default_subcommand_witness. Qed.
-Print Assumptions C01_skip_default_subcommand_refuted.
+Print Assumptions C01_skip_default_subcommand_regression.
 
 (* the chosen subcommand's mapping is written empty (its only option is None and save() drops None entries): `fit: {}` is
    not taken for a choice of the subcommand on the way back (class 14); with nulls kept the same configuration is in the guard *)
